@@ -61,6 +61,9 @@ INPLACE = {
     'Memvid::verify': (OPENREC, 'opens read-only (see C18)'),
     'Memvid::doctor': (DOCTOR, 'repair tool'),
     'Memvid::doctor_apply': (DOCTOR, 'repair tool'),
+    'Memvid::commit_parallel': ({W_WAL}, 'feature parallel_segments: commit through staging; post-rename WAL sentinel'),
+    'Memvid::put_parallel': (PUT, 'feature parallel_segments: WAL append, WAL growth, sentinel'),
+    'Memvid::put_parallel_inputs': (PUT, 'feature parallel_segments: WAL append, WAL growth, sentinel'),
     'Memvid::doctor_plan': ({W_WAL, 'HeaderCodec::read'}, 'probe opens the WAL; legacy header bytes'),
 }
 
